@@ -98,4 +98,32 @@ def applyItem (vars : List (Str × List VarVal)) (it : PhItem) (s : SStr) : Res 
       if handled it n then .qexpr expr ((mapping.find? (fun kv => kv.1 == n)).map (·.2) |>.getD n) else .same
     | _ => .err .mixed
 
+/-! ## Observations of the live code (regenerated into `Gen/Ph.lean`, compared in `Oblig/C17.lean`) -/
+
+/-- what one placeholder item was observed to do with one value: `None` (unchanged), a list of
+strings, a query expression, or an exception (class name; kind 0 = missing variable, 1 = ill-typed
+or empty variable, 2 = placeholder mixed with other parts, 3 = anything else; the variable name) -/
+inductive Obs
+  | same
+  | alts (vs : List SStr)
+  | qexpr (expr id : Str)
+  | err (cls : String) (kind : Nat) (name : Str)
+deriving Repr, DecidableEq
+
+/-- the observation the specification predicts -/
+def Res.obs : Res → Obs
+  | .same => .same
+  | .alts vs => .alts vs
+  | .qexpr e i => .qexpr e i
+  | .err (.missingVar n) => .err "SigmaValueError" 0 n
+  | .err (.badVar n) => .err "SigmaValueError" 1 n
+  | .err .mixed => .err "SigmaValueError" 2 []
+
+/-- Python type names of variable values the value-list item accepts (`isinstance(v, (str, int,
+float))`; `bool` is a subclass of `int`) -/
+def acceptedVarTypes : List String := ["str", "int", "float", "bool"]
+
+/-- a configured value as the specification sees it: its text if the type is accepted -/
+def toVarVal (tv : String × Str) : VarVal := if acceptedVarTypes.contains tv.1 then .text tv.2 else .bad
+
 end SigmaVerif.Placeholder
